@@ -648,6 +648,10 @@ impl<Storage: KalmanStorageBase> EstimatorState<Storage> {
     }
 }
 
+#[cfg(pendulum_project_ntpd_rs_verif)]
+#[path = "/verif/hooks/statime_algo_estimator.rs"]
+pub mod verif_hook;
+
 #[cfg(all(test, feature = "std"))]
 #[allow(clippy::float_cmp, reason = "Test code")]
 mod tests {
